@@ -13,6 +13,23 @@ ENV = dict(os.environ, CARGO_NET_OFFLINE="true")
 ANNOT = re.compile(r"//\s*@verif\s+(.*)$")
 
 
+def _item_text(text, name):
+    m = re.search(r"^(?:macro_rules!\s+" + re.escape(name) + r"|(?:pub(?:\([^)]*\))?\s+)?fn\s+" + re.escape(name) + r")\b", text, re.M)
+    if not m:
+        return ""
+    o = text.find("{", m.end())
+    depth, i = 0, o
+    while i < len(text):
+        if text[i] == "{":
+            depth += 1
+        elif text[i] == "}":
+            depth -= 1
+            if depth == 0:
+                return text[m.start():i + 1]
+        i += 1
+    return ""
+
+
 def scan_harnesses():
     """Parse /verif/kani/*_proofs.rs: each harness is preceded by `// @verif k=v ...` lines.
     Returns list of dict(name, file, module, property, class, bound, fns, tiers, obligations,
@@ -36,12 +53,16 @@ def scan_harnesses():
                     meta[k] = v.strip('"')
                 i += 1
             attrs = []
-            while i < len(lines) and not re.match(r"\s*(pub\s+)?fn\s+\w+", lines[i]):
+            while i < len(lines) and not re.match(r"\s*(pub\s+)?fn\s+\w+|\s*\w+!\(\s*\w+\s*,", lines[i]):
                 attrs.append(lines[i])
                 i += 1
             if i >= len(lines):
                 break
-            name = re.match(r"\s*(?:pub\s+)?fn\s+(\w+)", lines[i]).group(1)
+            mm = re.match(r"\s*\w+!\(\s*(\w+)\s*,", lines[i])
+            if mm:
+                name = mm.group(1)
+            else:
+                name = re.match(r"\s*(?:pub\s+)?fn\s+(\w+)", lines[i]).group(1)
             # body = until matching close at column 0 "}"
             j = i
             depth = 0
@@ -49,6 +70,8 @@ def scan_harnesses():
             body = []
             while j < len(lines):
                 body.append(lines[j])
+                if mm:
+                    break
                 depth += lines[j].count("{") - lines[j].count("}")
                 if "{" in lines[j]:
                     started = True
@@ -57,6 +80,11 @@ def scan_harnesses():
                 j += 1
             btxt = "\n".join(body)
             atxt = "\n".join(attrs)
+            for used in [u for u in meta.get("uses", "").split(",") if u]:
+                ut = _item_text(text, used)
+                btxt += "\n" + ut
+                if ut.lstrip().startswith("macro_rules"):
+                    atxt += "\n" + ut
             h = {
                 "name": name, "file": path, "module": module,
                 "full": f"{module}::{name}",
